@@ -54,7 +54,7 @@ impl Scenario for Wrap {
     fn build(cfg: &WrapCfg) -> Pin<Box<dyn Future<Output = Self>>> {
         let cfg = cfg.clone();
         Box::pin(async move {
-            let ocfg = OutCfg { ep: cfg.ep.clone(), cap: 3, senders: vec![], cancels: 0, batch: false, bp: 0, peer: PeerMode::Correct, judge: 0, prologue: 0, peer_max_packet: 0, inbound: 0, may_close: false, inbound_faults: false };
+            let ocfg = OutCfg { ep: cfg.ep.clone(), cap: 3, senders: vec![], cancels: 0, batch: false, bp: 0, peer: PeerMode::Correct, judge: 0, prologue: 0, peer_max_packet: 0, inbound: 0, may_close: false, inbound_faults: false, cancel_inflight: false };
             let conn = start_endpoint(&cfg.ep, connect_props_for(&ocfg), true).await;
             let app: App = std::rc::Rc::new(std::cell::RefCell::new(vec![SenderSt::default(), SenderSt::default(), SenderSt::default()]));
             Wrap { conn, app, total: cfg.total, started: false, seen: 0, acked: 0, outstanding: vec![], ids: vec![], err: None }
